@@ -37,9 +37,10 @@ fn main() {
                     let mut driver = driver::Driver { out: &mut out, locks: lock_out.as_mut().map(|writer| writer as &mut dyn Write), run_no, step_timeout: Duration::from_millis(timeout_ms) };
                     driver.run(&scenario)
                 };
-                summary.push(serde_json::json!({"run": run_no, "name": scenario.name, "steps": outcome.steps, "hang": outcome.hang, "stuck": outcome.stuck}));
+                summary.push(serde_json::json!({"run": run_no, "name": scenario.name, "steps": outcome.steps, "hang": outcome.hang, "stuck": outcome.stuck, "imprecise": outcome.imprecise}));
                 if outcome.hang.is_some() {
                     out.flush().unwrap();
+                    if let Some(writer) = lock_out.as_mut() { writer.flush().unwrap(); }
                     let replay = serde_json::json!({"scenario": scenario, "schedule": outcome.schedule});
                     println!("HANG {}", replay);
                     println!("SUMMARY {}", serde_json::Value::Array(summary));
